@@ -91,6 +91,7 @@ inductive Ev where
   | rcode (r : Nat)
   | tc (b : Bool)
   | clear
+  | bad                      -- a header operation failed or panicked (never happens: C01)
   deriving Repr, DecidableEq, Inhabited
 
 /-- the state of the answer phase: the writer and the ghost operation log. The log is written,
@@ -119,8 +120,8 @@ def panic {α} : PM α := fun s => (.panic, s)
 def hdrOp (ev : Ev) (m : M Unit) : PM Unit := fun s =>
   match m s.w with
   | (.ok (), w') => (.ok (), { w := w', log := s.log ++ [ev] })
-  | (.err e, w') => (.err (PErr.ofWriter e), { w := w', log := s.log ++ [ev] })
-  | (.panic, w') => (.panic, { w := w', log := s.log ++ [ev] })
+  | (.err e, w') => (.err (PErr.ofWriter e), { w := w', log := s.log ++ [.bad] })
+  | (.panic, w') => (.panic, { w := w', log := s.log ++ [.bad] })
 
 def setAa (b : Bool) : PM Unit := hdrOp (.aa b) (Writer.setAa b)
 def setRcode (r : Nat) : PM Unit := hdrOp (.rcode r) (Writer.setRcode r)
@@ -186,28 +187,29 @@ def readNameFromRdata (rdata : List UInt8) (start : Nat) : PM WName :=
 
 /-! ### helpers of query.rs -/
 
+/-- the AAAA half of `add_additional_addresses` (class IN only) -/
+def addAaaa (z : Zone.Zone) (hint : Hint) (owner : WName) (optional : Bool) (aaaa : Option Zone.Rrset) : PM Unit :=
+  if z.cls = Gen.CLASS_IN then
+    match aaaa with
+    | some r => do
+      let _ ← PM.addRrs optional .additional hint owner Gen.T_AAAA Gen.CLASS_IN r.ttl r.rdatas
+      pure ()
+    | none => pure ()
+  else pure ()
+
 /-- `add_additional_addresses(zone, owner, search_below_cuts, response)`; `optional` = the call is
     wrapped in `execute_allowing_truncation` (a `Truncation` from the A RRset ends the closure:
     the AAAA RRset is then not attempted) -/
 def addAdditionalAddresses (z : Zone.Zone) (hint : Hint) (owner : WName) (sbc optional : Bool) : PM Unit :=
   match Zone.lookupAddrs z (fold owner) ⟨false, sbc⟩ with
-  | .ok (.found a aaaa _) => do
-    let h : Option Hint ← (match a with
-      | some r => do
-        match (← PM.addRrs optional .additional hint owner Gen.T_A z.cls r.ttl r.rdatas) with
-        | some _ => pure (some Hint.mostRecentOwner)
-        | none => pure none
-      | none => pure (some hint))
-    match h with
-    | none => pure ()
-    | some h =>
-      if z.cls = Gen.CLASS_IN then
-        match aaaa with
-        | some r => do
-          let _ ← PM.addRrs optional .additional h owner Gen.T_AAAA Gen.CLASS_IN r.ttl r.rdatas
-          pure ()
+  | .ok (.found a aaaa _) =>
+    match a with
+    | some r =>
+      PM.addRrs optional .additional hint owner Gen.T_A z.cls r.ttl r.rdatas >>= fun o =>
+        match o with
+        | some _ => addAaaa z Hint.mostRecentOwner owner optional aaaa   -- `owner = HintedName::new(MostRecentOwner, ..)`
         | none => pure ()
-      else pure ()
+    | none => addAaaa z hint owner optional aaaa
   | .ok _ => pure ()
   | .err _ => pure ()
   | .panic => PM.panic
@@ -232,21 +234,21 @@ def doAdditionalSectionProcessing (z : Zone.Zone) (rrType : Nat) (rrset : Zone.R
   else if rrType = T "SRV" then additionalLoop z 6 hv rrset.rdatas 0
   else pure ()
 
-/-- `read_soa_minimum` -/
+/-- `read_soa_minimum`: `Name::validate_uncompressed` twice (the lengths of MNAME and RNAME), then
+    exactly four octets at offset 16 after them. (`WName.parse` is the structural twin of
+    `Name::validate_uncompressed`: same acceptance condition, the rest of the octets instead of
+    the length.) -/
 def readSoaMinimum (rdata : List UInt8) : PM Nat :=
-  let b : Bytes := rdata.toArray
-  match Wire.validateUncompressed b false with
-  | .ok mlen =>
-    match Wire.validateUncompressed (b.extract mlen b.size) false with
-    | .ok rlen =>
-      if mlen + rlen + 16 > rdata.length then PM.fail .servFail
+  match WName.parse rdata with
+  | some (_, r1) =>
+    match WName.parse r1 with
+    | some (_, r2) =>
+      if 16 > r2.length then PM.fail .servFail
       else
-        let rest := rdata.drop (mlen + rlen + 16)
+        let rest := r2.drop 16
         if rest.length = 4 then pure (be32 rest.toArray 0) else PM.fail .servFail
-    | .err _ => PM.fail .servFail
-    | .panic => PM.panic
-  | .err _ => PM.fail .servFail
-  | .panic => PM.panic
+    | none => PM.fail .servFail
+  | none => PM.fail .servFail
 
 /-- `add_negative_caching_soa` -/
 def addNegativeCachingSoa (z : Zone.Zone) : PM Unit :=
